@@ -2,6 +2,7 @@ package main
 
 import (
 	"go/token"
+	"go/types"
 
 	"golang.org/x/tools/go/ssa"
 )
@@ -140,6 +141,65 @@ func normalizeFunc(fn *ssa.Function) (params, results int) {
 		}
 		params++
 	}
+	// 1b. store-to-load forwarding for cells that stay cells (a captured variable that is assigned again, a named result
+	// of a function with a defer): a load that one store dominates, with no other store of the cell possible between the
+	// two, is the value stored. No phi is ever needed for that, so nothing is invented.
+	for _, b := range fn.Blocks {
+		for _, in := range b.Instrs {
+			al, ok := in.(*ssa.Alloc)
+			if !ok {
+				continue
+			}
+			plain := true
+			var stores []*ssa.Store
+			var loads []*ssa.UnOp
+			for _, r := range refs(al) {
+				switch u := r.(type) {
+				case *ssa.Store:
+					if u.Addr != ssa.Value(al) {
+						plain = false
+					} else {
+						stores = append(stores, u)
+					}
+				case *ssa.UnOp:
+					if u.Op == token.MUL {
+						loads = append(loads, u)
+					}
+				case *ssa.MakeClosure, *ssa.DebugRef:
+				default:
+					plain = false
+				}
+			}
+			if !plain || len(stores) == 0 || len(loads) == 0 || cellWrittenByClosures(fn, al) || !isParamOrResultCell(fn, al) {
+				// ordinary captured locals are left alone: rules that follow such a variable do it through its cell
+				continue
+			}
+			for _, ld := range loads {
+				var best *ssa.Store
+				for _, st := range stores {
+					if instrDominates(st, ld) && (best == nil || instrDominates(best, st)) {
+						best = st
+					}
+				}
+				if best == nil {
+					continue
+				}
+				clean := true
+				for _, st := range stores {
+					if st == best {
+						continue
+					}
+					// another store that may run after best and before the load
+					if mayRunBetween(best, st, ld) {
+						clean = false
+					}
+				}
+				if clean {
+					rewire(ld, best.Val)
+				}
+			}
+		}
+	}
 	// 2. spilled results
 	for _, b := range fn.Blocks {
 		if len(b.Instrs) == 0 {
@@ -175,7 +235,13 @@ func normalizeFunc(fn *ssa.Function) (params, results int) {
 				}
 			}
 			if val == nil {
-				continue
+				// a bare `return` of named results: what reaches it. When no store into the cell reaches the return on any
+				// path, the result is the zero value it was allocated with; when exactly one store reaches it on every path
+				// (and dominates the return), the result is what that store stored.
+				val = reachingResult(fn, al, ret)
+				if val == nil {
+					continue
+				}
 			}
 			ret.Results[i] = val
 			if ur := u.Referrers(); ur != nil {
@@ -236,6 +302,84 @@ func closureTouches(mc *ssa.MakeClosure, cell ssa.Value) bool {
 				}
 			case *ssa.DebugRef:
 			default:
+				return true
+			}
+		}
+	}
+	return false
+}
+
+// reachingResult: the one value the result cell al holds at the return, or nil when that is not decided by the shape of
+// the control flow alone.
+func reachingResult(fn *ssa.Function, al *ssa.Alloc, ret *ssa.Return) ssa.Value {
+	type item struct {
+		b   *ssa.BasicBlock
+		end int // scan instructions [0,end) backwards
+	}
+	seen := map[*ssa.BasicBlock]bool{}
+	work := []item{{ret.Block(), len(ret.Block().Instrs)}}
+	var stores []*ssa.Store
+	zero := false
+	for len(work) > 0 {
+		it := work[len(work)-1]
+		work = work[:len(work)-1]
+		found := false
+		for j := it.end - 1; j >= 0; j-- {
+			if st, ok := it.b.Instrs[j].(*ssa.Store); ok && st.Addr == ssa.Value(al) {
+				stores = append(stores, st)
+				found = true
+				break
+			}
+			if it.b.Instrs[j] == ssa.Instruction(al) {
+				zero = true // reached the allocation itself without a store
+				found = true
+				break
+			}
+		}
+		if found {
+			continue
+		}
+		if len(it.b.Preds) == 0 {
+			zero = true
+			continue
+		}
+		for _, p := range it.b.Preds {
+			if !seen[p] {
+				seen[p] = true
+				work = append(work, item{p, len(p.Instrs)})
+			}
+		}
+	}
+	if len(stores) == 0 && zero {
+		return ssa.NewConst(nil, al.Type().Underlying().(*types.Pointer).Elem())
+	}
+	if len(stores) == 1 && !zero && instrDominates(stores[0], ret) {
+		return stores[0].Val
+	}
+	return nil
+}
+
+// mayRunBetween: on some path from a to c (a dominates c), b executes after a and before c.
+func mayRunBetween(a, b, c ssa.Instruction) bool {
+	fn := a.Parent()
+	// reachable from a without passing a again ... to b ... to c without passing a
+	stopAtA := func(x ssa.Instruction) bool { return x == a }
+	if existsPath(fn, a, func(x ssa.Instruction) bool { return x == b }, stopAtA) == nil {
+		return false
+	}
+	return existsPath(fn, b, func(x ssa.Instruction) bool { return x == c }, stopAtA) != nil
+}
+
+// isParamOrResultCell: the cell of a parameter (spilled because a closure captures it) or of a named result.
+func isParamOrResultCell(fn *ssa.Function, al *ssa.Alloc) bool {
+	for _, p := range fn.Params {
+		if p.Name() == al.Comment {
+			return true
+		}
+	}
+	if res := fn.Signature.Results(); res != nil {
+		for i := 0; i < res.Len(); i++ {
+			if n := res.At(i).Name(); n != "" && n == al.Comment {
 				return true
 			}
 		}
